@@ -102,9 +102,11 @@ class C02(InputProp):
         # tokens and white space (markup that leaks into the text - a stray "|+", "''", "==" - shows here)
         extra = X.TOKEN.sub("", "".join(n.caption or "" for n in tree.allchildren() if type(n).__name__ == "Text"))
         extra = "".join(extra.split())
-        if extra:
-            viol.append({"sig": "invented-text|%s|%s" % (names[-1] if len(names) == 1 else "+".join(sorted(set(names)))[:60], variant),
-                         "msg": "[%s] the tree shows %r which is not text of the document; wikitext %r" % (lang, extra[:40], text)})
+        want_extra = G.extras(doc)
+        if extra != want_extra:
+            viol.append({"sig": "%s|%s|%s" % ("invented-text" if len(extra) >= len(want_extra) else "lost-text",
+                                               names[-1] if len(names) == 1 else "+".join(sorted(set(names)))[:60], variant),
+                         "msg": "[%s] besides the tokens the tree shows %r, the document has %r; wikitext %r" % (lang, extra[:40], want_extra[:40], text)})
         for mm in compare(got, want):
             kind, tok, detail = mm[0], mm[1], mm[2]
             # which block the token belongs to, and whether that block ends the text
